@@ -123,6 +123,13 @@ class Subroutine:
             netqasm_version=self.netqasm_version,
             app_id=self.app_id,
         )
+        # ctypes silently truncates integers that do not fit their field
+        if metadata.app_id != self.app_id or tuple(metadata.netqasm_version) != tuple(
+            self.netqasm_version
+        ):
+            raise ValueError(
+                f"app ID {self.app_id} or version {self.netqasm_version} cannot be encoded"
+            )
         return [metadata] + [instr.serialize() for instr in self.instructions]
 
     def __bytes__(self):
